@@ -605,6 +605,22 @@ func c11Enumerate(tier string, emit explore.Emit) {
 		c := c11Case{Cfg: cfg, Behave: "gss-then-ssl", Hist: []c11Letter{letters[0]}}
 		emit(explore.Case{Family: "tls", Size: 2, Desc: func() any { return c.String() }, Run: func() explore.Result { return c11Run(c) }})
 	}
+	for _, auth := range []bool{false, true} {
+		auth := auth
+		emit(explore.Case{Family: "tls", Size: 2, Desc: func() any {
+			return map[string]any{"tls": "certs", "server_closed_before_the_ssl_request": true, "auth": auth}
+		},
+			Run: func() explore.Result { return c11RunAfterClose(auth) }})
+	}
+	for _, junk := range [][]byte{{0}, []byte("junk!"), {0x16, 0x03, 0x01, 0x00, 0x02, 0x01, 0x00}, {0x15, 0x03, 0x03, 0x00, 0x02, 0x02, 0x28}, []byte("GET / HTTP/1.0\r\n\r\n")} {
+		for _, stuffed := range []bool{false, true} {
+			junk, stuffed := junk, stuffed
+			emit(explore.Case{Family: "tls", Size: 3, Desc: func() any {
+				return map[string]any{"tls": "certs", "after_S_the_client_sends": fmt.Sprintf("% x", junk), "then": "plaintext start-up + Query", "start-up stuffed behind the SSLRequest too": stuffed}
+			},
+				Run: func() explore.Result { return c11RunJunk(junk, stuffed) }})
+		}
+	}
 	// certificates that arrive later: the application holds the *tls.Config it handed over and adds the
 	// certificate to it once it has been issued; from then on SSLRequests are answered S
 	for _, before := range []int{0, 1, 3} {
@@ -629,6 +645,77 @@ func c11Enumerate(tier string, emit explore.Emit) {
 		c := c
 		emit(explore.Case{Family: "tls-limit", Size: 3, Desc: func() any { return c.String() }, Run: func() explore.Result { return c11Run(c) }})
 	}
+}
+
+// c11RunAfterClose: the connection was accepted, then Server.Close was called (it only stops the accept loop and waits
+// for running commands), then the client sends its SSLRequest: with certificates the answer is S (or the
+// connection is closed) - never N followed by a plaintext session.
+func c11RunAfterClose(auth bool) explore.Result {
+	var res explore.Result
+	res.Outcome = "upgraded"
+	res.Key = fmt.Sprint("after-close", auth)
+	rec := &script.Rec{Extra: copyHandler}
+	one, err := c11Server(rec, "certs", 0, map[bool]int{false: 0, true: 1}[auth])
+	if err != nil {
+		res.Engine = err.Error()
+		return res
+	}
+	if st := one.C.Await(); st != memnet.Parked { // the connection has been accepted and waits for its first packet
+		res.Engine = fmt.Sprintf("connection is %s before anything was sent", st)
+		return res
+	}
+	one.Server.Srv.Close()
+	out, st := one.Step(pgproto.SSLRequest())
+	switch {
+	case len(out) == 0 && st == memnet.Closed:
+	case string(out) == "S":
+	default:
+		res.Fail("ssl-accept", fmt.Sprintf("certificates configured, connection accepted before Close, SSLRequest sent after it: answered % x (connection %s); expected S or a closed connection", out, st))
+	}
+	one.C.EOF()
+	one.C.AwaitClose()
+	res.Trans = []string{"closing|SSLRequest|S or closed"}
+	return res
+}
+
+// c11RunJunk: after S the client sends bytes that are no TLS handshake and stays connected, then a plaintext
+// start-up packet and a query: nothing is answered in plaintext, nothing reaches a callback.
+func c11RunJunk(junk []byte, stuffed bool) explore.Result {
+	var res explore.Result
+	res.Outcome = "plaintext-instead-of-handshake"
+	res.Key = fmt.Sprint("junk", junk, stuffed)
+	rec := &script.Rec{Extra: copyHandler}
+	one, err := c11Server(rec, "certs")
+	if err != nil {
+		res.Engine = err.Error()
+		return res
+	}
+	defer func() {
+		if !one.Server.AnyWedged() {
+			one.Stop()
+		}
+	}()
+	first := pgproto.SSLRequest()
+	if stuffed {
+		first = pgproto.Cat(first, c11Stuffed)
+	}
+	out, _ := one.Step(first)
+	if len(out) < 1 || out[0] != 'S' {
+		res.Fail("ssl-accept", fmt.Sprintf("SSLRequest answered % x", out))
+		return res
+	}
+	one.Step(junk)
+	one.Step(pgproto.Cat(pgproto.Startup("user", "eve"), pgproto.Query("stuffed")))
+	one.End()
+	raw := one.C.Output()[1:]
+	if _, bad := checkTLSRecords(raw); bad != "" {
+		res.Fail("plaintext-after-S", fmt.Sprintf("after S the client sent % x (no TLS handshake) and then a plaintext start-up packet: the server sent bytes outside of a TLS session: %s", junk, bad))
+	}
+	if cb := cbSummary(rec.Evs); len(cb) > 0 {
+		res.Fail("callback-from-untrusted-bytes", fmt.Sprintf("junk % x then plaintext: callbacks %v", junk, cb))
+	}
+	res.Trans = []string{"S|junk + plaintext|closed"}
+	return res
 }
 
 func c11RunLateCerts(before int) explore.Result {
